@@ -689,6 +689,7 @@ func init() {
 			{Name: "slice-lattice", N: c03SliceLatticeN, Run: c03SliceLattice, Exhaustive: true},
 			{Name: "long", N: func(c *Ctx) int { return 12 }, Run: c03Long, Exhaustive: true},
 			{Name: "byte-runs", N: c03RunsN, Run: c03Runs, Exhaustive: true},
+			{Name: "misspelled-builtins", N: misspelledN, Run: c03Misspelled, Exhaustive: true},
 			{Name: "nesting", N: c03NestN, Run: c03Nest, Exhaustive: true},
 			{Name: "pad-huge", N: func(c *Ctx) int { return len(c03PadHuge) }, Run: c03Pad, Exhaustive: true},
 			{Name: "deep-nesting", N: func(c *Ctx) int { return len(c03DeepForms) }, Run: c03Deep, Exhaustive: true},
